@@ -256,7 +256,8 @@ impl<'r> G<'r> {
             if has(self, &anyk) { w.fork } else { 0 },
             if has(self, &ownk) { w.join_park } else { 0 },
             if has(self, &|k: &SK| k.hk == Hk::Sender) { w.send_park } else { 0 },
-            if has(self, &|k: &SK| k.hk == Hk::Fut) { 2 * w.send_park } else { 0 },
+            if has(self, &|k: &SK| k.hk == Hk::Fut || k.hk == Hk::OwnFut) { 2 * w.send_park.max(w.join_park) } else { 0 },
+            if has(self, &ownk) { w.join_park } else { 0 },
         ];
         if ws.iter().all(|x| *x == 0) {
             return false;
@@ -428,9 +429,16 @@ impl<'r> G<'r> {
                 self.prog.clients[c].push(Op::SendPark { slot, script, polls });
             }
             25 => {
-                let slot = pick(self, &|k: &SK| k.hk == Hk::Fut);
+                let slot = pick(self, &|k: &SK| k.hk == Hk::Fut || k.hk == Hk::OwnFut);
                 self.sk[c][slot as usize] = NONE;
                 self.prog.clients[c].push(Op::AwaitParked { slot });
+            }
+            26 => {
+                let slot = pick(self, &ownk);
+                let a = self.sk[c][slot as usize].a;
+                self.sk[c][slot as usize] = NONE;
+                push(self, SK { hk: Hk::OwnFut, a });
+                self.prog.clients[c].push(Op::ConsumePark { slot });
             }
             _ => {
                 // fork: move 1-2 random handles to a new client which runs 1-3 ops
@@ -932,7 +940,7 @@ pub fn timeout(rng: &mut Rng) -> Program {
                 *g.rng.pick(&[0u64, 1, 8, 50, 200, 1000])
             } else {
                 match g.rng.below(8) {
-                    0 => t - 1,
+                    0 => t.saturating_sub(1),
                     1 => t + 1,
                     2 => t,
                     3 => 0,
@@ -953,6 +961,11 @@ pub fn timeout(rng: &mut Rng) -> Program {
             }
             if g.rng.chance(1, 5) {
                 g.prog.clients[c].push(Op::Yield);
+            }
+            // idle gaps, some longer than the timeout: the limit applies to an invocation, not to the time between two
+            if g.rng.chance(1, 5) {
+                let gap = *g.rng.pick(&[1u64, t + 1, 2 * t + 3, 13]);
+                g.prog.clients[c].push(Op::Sleep(gap));
             }
         }
         if g.rng.chance(1, 3) {
@@ -2046,5 +2059,31 @@ pub fn droprace(rng: &mut Rng) -> Program {
     });
     g.prog.clients[1].push(Op::Drop { slot: 3 });
     g.prog.clients[1].push(Op::Upgrade { slot: 2 });
+    g.prog
+}
+
+/// family "timeout0": the boundary configuration `.timeout(Duration::ZERO)`: every invocation that needs any time at
+/// all is abandoned (an instantaneous one ties with the timer).  Used by C11 only: with t = 0 even the successor of
+/// a message may be abandoned before its handler is entered, which the other oracles do not model.
+pub fn timeout0(rng: &mut Rng) -> Program {
+    let mut g = G::new(rng);
+    let mut a = ActorDecl::plain(1);
+    a.mailbox = mailbox_kind(g.rng);
+    a.entry = Entry::Builder;
+    a.timeout = Some(0);
+    a.fail_on_timeout = g.rng.chance(1, 3);
+    a.cfg_order = g.rng.below(4) as u8;
+    a.holders = vec![0];
+    g.prog.actors.push(a);
+    g.layout(1);
+    let k = g.rng.range(1, 5);
+    for _ in 0..k {
+        let d = *g.rng.pick(&[0u64, 1, 1, 2, 5]);
+        let script = vec![PStep::Sleep(d)];
+        g.prog.clients[0].push(if g.rng.chance(2, 3) { Op::Call { slot: 0, script, cancel: None } } else { Op::Send { slot: 0, script, cancel: None } });
+        if g.rng.chance(1, 4) {
+            g.prog.clients[0].push(Op::Sleep(1));
+        }
+    }
     g.prog
 }
